@@ -11,6 +11,7 @@ import (
 	"hash/fnv"
 	"os"
 	"sort"
+	"strings"
 	"sync"
 )
 
@@ -147,4 +148,15 @@ func Flush() {
 		return
 	}
 	_ = os.Rename(tmp, out)
+}
+
+// Known reports whether a finding signature is listed as open in /verif/known_findings.json (the
+// driver passes the open signatures of the property being checked in VERIF_KNOWN).
+func Known(sig string) bool {
+	for _, s := range strings.Split(os.Getenv("VERIF_KNOWN"), ",") {
+		if s == sig {
+			return true
+		}
+	}
+	return false
 }
